@@ -7,6 +7,7 @@ package libp2p
 // the gate is held for a chosen delay.  Also ungated runs (natural relative speeds).
 
 import (
+	"fmt"
 	"bytes"
 	"context"
 	"crypto/ecdsa"
@@ -56,6 +57,10 @@ type c20In struct {
 	// the responder is held not inside the handshake but between its return and the registration
 	// of the peer (in-package: scripted stream whose Conn() is held at the registry call)
 	HeldBeforeRegister bool `json:"held_before_register,omitempty"`
+	// the responder serves this (newer) minor version of the protocol; the initiator speaks 1.0.0
+	ServerMinor int `json:"server_minor,omitempty"`
+	// the initiator connected before, disconnected cleanly (the responder saw it go), and connects again
+	Reconnected bool `json:"reconnected,omitempty"`
 }
 type c20Obs struct {
 	ConnectOK    bool `json:"connect_ok"`
@@ -149,7 +154,9 @@ func c20Run(t *testing.T, in c20In, rng *vrng) (obs c20Obs) {
 		}
 		return nil
 	}}
-	server.AddStreamHandlers(desc)
+	sdesc := desc
+	sdesc.Version = fmt.Sprintf("1.%d.0", in.ServerMinor)
+	server.AddStreamHandlers(sdesc)
 	info, _ := (&peer.AddrInfo{ID: server.host.ID(), Addrs: server.host.Addrs()}).MarshalJSON()
 	ctx, cancel := context.WithTimeout(context.Background(), 5*time.Second+time.Duration(in.DelayMs)*time.Millisecond)
 	defer cancel()
@@ -160,6 +167,30 @@ func c20Run(t *testing.T, in c20In, rng *vrng) (obs c20Obs) {
 		for i := 0; i < 400 && client.host.Network().Connectedness(server.host.ID()) != network.Connected; i++ {
 			time.Sleep(5 * time.Millisecond)
 		}
+	}
+	if in.Reconnected {
+		prev, err := New(&Options{KeySigner: cks, Secret: "verif", ListenPort: 0, ListenAddr: "127.0.0.1", PeerType: p2p.PeerType(in.ClientRole),
+			Register: c20Registry{}, Logger: slog.New(&c20Log{}), MetricsReg: prometheus.NewRegistry()})
+		if err != nil {
+			t.Fatal(err)
+		}
+		if _, err := prev.Connect(ctx, info); err == nil {
+			for i := 0; i < 200; i++ { // registered on the responder
+				if _, ok := server.peers.getPeer(prev.host.ID()); ok {
+					break
+				}
+				time.Sleep(5 * time.Millisecond)
+			}
+		}
+		pid := prev.host.ID()
+		prev.Close()
+		for i := 0; i < 400; i++ { // the responder saw the connection close and unregistered the peer
+			if _, ok := server.peers.getPeer(pid); !ok && len(server.host.Network().ConnsToPeer(pid)) == 0 {
+				break
+			}
+			time.Sleep(5 * time.Millisecond)
+		}
+		time.Sleep(20 * time.Millisecond)
 	}
 	var first *Service
 	if in.Reincarnated {
@@ -420,7 +451,7 @@ func TestVerifC20(t *testing.T) {
 	for _, raw := range vcorpus() {
 		var in c20In
 		if json.Unmarshal(raw, &in) == nil {
-			out.emit(in, c20Run(t, in, rng))
+			out.emitGuarded(in, c20Obs{Panic: true}, func() any { return c20Run(t, in, rng) })
 		}
 	}
 	if vonlyReplay() {
@@ -434,19 +465,31 @@ func TestVerifC20(t *testing.T) {
 	for i, d := range delays {
 		r := roles[i%len(roles)]
 		in := c20In{Tag: "gated", Gated: true, DelayMs: d, Streams: 1 + i%3, ServerRole: r[0], ClientRole: r[1]}
-		out.emit(in, c20Run(t, in, rng))
+		out.emitGuarded(in, c20Obs{Panic: true}, func() any { return c20Run(t, in, rng) })
 	}
 	// the initiator is a restarted node: its previous incarnation's connection closes afterwards
 	for i, d := range []int{0, 40} {
 		r := roles[(i+2)%len(roles)]
 		in := c20In{Tag: "reincarnated", Gated: d > 0, DelayMs: d, Streams: 2, ServerRole: r[0], ClientRole: r[1], Reincarnated: true, FirstAfter: 0}
-		out.emit(in, c20Run(t, in, rng))
+		out.emitGuarded(in, c20Obs{Panic: true}, func() any { return c20Run(t, in, rng) })
+	}
+	// the responder is one or more minor versions ahead of the initiator (rolling upgrade)
+	for i, mv := range []int{1, 3} {
+		r := roles[(i+1)%len(roles)]
+		in := c20In{Tag: "responder-newer-minor", Gated: i == 1, DelayMs: 20, Streams: 2, ServerRole: r[0], ClientRole: r[1], ServerMinor: mv}
+		out.emitGuarded(in, c20Obs{Panic: true}, func() any { return c20Run(t, in, rng) })
+	}
+	// the initiator comes back after a clean disconnect
+	for i, d := range []int{0, 30} {
+		r := roles[(i+3)%len(roles)]
+		in := c20In{Tag: "reconnected", Gated: d > 0, DelayMs: d, Streams: 2, ServerRole: r[0], ClientRole: r[1], Reconnected: true}
+		out.emitGuarded(in, c20Obs{Panic: true}, func() any { return c20Run(t, in, rng) })
 	}
 	// the responder is held between the end of its handshake and the registration of the peer
 	for i, d := range []int{5, 60} {
 		r := roles[i%len(roles)]
 		in := c20In{Tag: "held-before-register", Gated: true, DelayMs: d, Streams: 1, ServerRole: r[0], ClientRole: r[1], HeldBeforeRegister: true}
-		out.emit(in, c20HeldBeforeRegister(t, in, rng))
+		out.emitGuarded(in, c20Obs{Panic: true}, func() any { return c20HeldBeforeRegister(t, in, rng) })
 	}
 	// the same with a transport connection the responder dialed
 	for i, d := range delays {
@@ -455,7 +498,7 @@ func TestVerifC20(t *testing.T) {
 		}
 		r := roles[(i+1)%len(roles)]
 		in := c20In{Tag: "gated-responder-dialed", Gated: true, DelayMs: d, Streams: 1 + i%2, ServerRole: r[0], ClientRole: r[1], ResponderDials: true}
-		out.emit(in, c20Run(t, in, rng))
+		out.emitGuarded(in, c20Obs{Panic: true}, func() any { return c20Run(t, in, rng) })
 	}
 	// past every real-time bound the package's source mentions (none on the unchanged tree)
 	for _, ms := range c20Timers() {
@@ -468,12 +511,12 @@ func TestVerifC20(t *testing.T) {
 		}
 		for _, rd := range []bool{false, true} {
 			in := c20In{Tag: "gated-past-timer", Gated: true, DelayMs: d, Streams: 1, ServerRole: 1, ClientRole: 2, ResponderDials: rd}
-			out.emit(in, c20Run(t, in, rng))
+			out.emitGuarded(in, c20Obs{Panic: true}, func() any { return c20Run(t, in, rng) })
 		}
 	}
 	for i := 0; i < vcount(6, 60); i++ {
 		r := roles[rng.intn(len(roles))]
 		in := c20In{Tag: "ungated", Streams: 1 + rng.intn(3), FirstAfter: []int{0, 0, 50, 500, 5000}[rng.intn(5)], ServerRole: r[0], ClientRole: r[1]}
-		out.emit(in, c20Run(t, in, rng))
+		out.emitGuarded(in, c20Obs{Panic: true}, func() any { return c20Run(t, in, rng) })
 	}
 }
